@@ -239,7 +239,12 @@ impl Instance {
             Ok(Err(_elapsed)) => Resp::Panic("WATCHDOG: no answer within 120 s".into()),
             Ok(Ok(Err(e))) => Resp::Err { code: -32700, message: format!("request not parseable: {}", e), data: None },
             Ok(Ok(Ok((raw, _rx)))) => {
-                let v: Value = serde_json::from_str(raw.get()).unwrap_or(Value::Null);
+                // responses can nest deeply (call traces of recursive contracts): no recursion limit
+                let v: Value = {
+                    let mut de = serde_json::Deserializer::from_str(raw.get());
+                    de.disable_recursion_limit();
+                    serde::Deserialize::deserialize(&mut de).unwrap_or(Value::Null)
+                };
                 if let Some(res) = v.get("result") {
                     Resp::Ok(res.clone())
                 } else if let Some(e) = v.get("error") {
